@@ -12,8 +12,10 @@
                      holds [s_cnt > 0] frames of duration [F]; [tot segs] frames in all.
     [ref_pre]:       ranges of the Go types (products below 2^64, fewer than 2^32 frames) and
                      "the audio table reaches the start of the output segment".
-    [ref_not_inner]: the output interval does NOT start after the beginning of a VoD audio segment
-                     and end before its end (finding audio-inner-interval-500 excluded). *)
+    History: up to fix fc72486 createAudioSeg failed when the output interval started after the
+    beginning of a VoD audio segment and ended before its end (finding audio-inner-interval-500);
+    C03_frames then carried the hypothesis [ref_not_inner]. The model follows the repaired code and the
+    hypothesis is gone; C03_inner_served is the former counter-example. *)
 From Verif Require Import GoSem Audio AudioProofs.
 From Verif Require Timeline TimelineProofs AudioRef AudioRefProofs.
 
@@ -46,81 +48,47 @@ Theorem C03_recipe : forall r F a,
 Proof. exact recipe_in_wrap. Qed.
 Print Assumptions C03_recipe.
 
-(** C03_frames (under [ref_not_inner]; [audio_segment false] = the code as found). The served segment
-    for reference segment [n] of a well-formed looped reference: tfdt = frame boundary of the reference
-    start, sequence number = the number passed in, and the frames are exactly the frames [g] in
-    [[start/F, end/F)] of the looped source, [src g = min (g - (frame index of the loop start)) (last
-    frame)]: consecutive source frames, restarting at frame 0 at every loop start, the last frame
-    repeated only where the audio table is shorter than the video loop. *)
+(** C03_frames. The served segment for reference segment [n] of a well-formed looped reference:
+    tfdt = frame boundary of the reference start, sequence number = the number passed in, and the
+    frames are exactly the frames [g] in [[start/F, end/F)] of the looped source,
+    [src g = min (g - (frame index of the loop start)) (last frame)]: consecutive source frames,
+    restarting at frame 0 at every loop start, the last frame repeated only where the audio table is
+    shorter than the video loop. Any relation between the audio grid and the video grid. *)
 Theorem C03_frames : forall r F a,
   0 < r -> 0 < F -> F < two32 -> 0 < a ->
   forall vr loopMS, Timeline.wf vr loopMS ->
   forall nr segs n,
   ref_pre r F a vr segs n ->
-  ref_not_inner r F a vr segs n ->
-  audio_segment false nr (Timeline.S vr n) (Timeline.E vr n) (Timeline.repDuration vr) r F a segs =
+  audio_segment nr (Timeline.S vr n) (Timeline.E vr n) (Timeline.repDuration vr) r F a segs =
   Ok {| o_tfdt := fb r F a (Timeline.S vr n); o_seq := nr;
         o_frames := map (fun g => Z.min (g - fidx r F a (loop_start vr n)) (tot segs - 1))
                         (rangeZ (fidx r F a (Timeline.S vr n)) (fidx r F a (Timeline.E vr n))) |}.
-Proof. exact ref_served_frames_found. Qed.
+Proof. exact ref_served_frames. Qed.
 Print Assumptions C03_frames.
 
-(** C03_frames_fixed: with proposed_fixes/C03-endidx.diff applied ([audio_segment true]) the same
-    holds without [ref_not_inner]. The correspondence run determines which of the two versions the
-    implementation under test has. *)
-Theorem C03_frames_fixed : forall r F a,
-  0 < r -> 0 < F -> F < two32 -> 0 < a ->
-  forall vr loopMS, Timeline.wf vr loopMS ->
-  forall nr segs n,
-  ref_pre r F a vr segs n ->
-  audio_segment true nr (Timeline.S vr n) (Timeline.E vr n) (Timeline.repDuration vr) r F a segs =
-  Ok {| o_tfdt := fb r F a (Timeline.S vr n); o_seq := nr;
-        o_frames := map (fun g => Z.min (g - fidx r F a (loop_start vr n)) (tot segs - 1))
-                        (rangeZ (fidx r F a (Timeline.S vr n)) (fidx r F a (Timeline.E vr n))) |}.
-Proof. exact ref_served_frames_fixed. Qed.
-Print Assumptions C03_frames_fixed.
-
-(** C03_inner_fails: the hypothesis [ref_not_inner] of C03_frames is necessary, for every asset:
-    when the output interval lies strictly inside one VoD audio segment the request fails (HTTP 500). *)
-Theorem C03_inner_fails : forall r F a,
-  0 < r -> 0 < F -> F < two32 -> 0 < a ->
-  forall vr loopMS, Timeline.wf vr loopMS ->
-  forall nr segs n,
-  ref_pre r F a vr segs n ->
-  ~ ref_not_inner r F a vr segs n ->
-  audio_segment false nr (Timeline.S vr n) (Timeline.E vr n) (Timeline.repDuration vr) r F a segs =
-  Err "audioLeft != audioInEndAfterWrap".
-Proof. exact ref_served_inner_fails. Qed.
-Print Assumptions C03_inner_fails.
-
-(** C03_inner_refuted: a concrete asset for which the property fails on the code as found
-    (one 8 s audio segment of 375 frames, four 2 s video segments; reference segment 1); with the
-    proposed fix the segment is served with source frames 94..187. *)
-Theorem C03_inner_refuted :
+(** C03_inner_served (formerly C03_inner_refuted). One 8 s audio segment of 375 frames against four
+    2 s video segments, reference segment 1: the output interval lies strictly inside the only VoD
+    audio segment; the segment is served with source frames 94..187. *)
+Theorem C03_inner_served :
   Timeline.wf w_video 8000 /\
   ref_pre 90000 1024 48000 w_video w_audio8 1 /\
-  ~ ref_not_inner 90000 1024 48000 w_video w_audio8 1 /\
-  audio_segment false 1 (Timeline.S w_video 1) (Timeline.E w_video 1) (Timeline.repDuration w_video)
-                90000 1024 48000 w_audio8 = Err "audioLeft != audioInEndAfterWrap".
-Proof. exact (conj w_video_wf inner_refuted_witness). Qed.
-Print Assumptions C03_inner_refuted.
-
-Example C03_inner_fixed_example :
-  audio_segment true 1 (Timeline.S w_video 1) (Timeline.E w_video 1) (Timeline.repDuration w_video)
+  audio_segment 1 (Timeline.S w_video 1) (Timeline.E w_video 1) (Timeline.repDuration w_video)
                 90000 1024 48000 w_audio8
   = Ok {| o_tfdt := 96256; o_seq := 1; o_frames := rangeZ 94 188 |}.
-Proof. exact inner_fixed_witness. Qed.
+Proof. exact (conj w_video_wf inner_served_witness). Qed.
+Print Assumptions C03_inner_served.
 
-(** C03_abut (both versions of the code). Whenever two consecutive segments are served, the first starts at the frame boundary of
+(** C03_abut. Two consecutive segments are both served; the first starts at the frame boundary of
     its reference start, holds exactly (end - start)/F frames, (end - start) is a multiple of F, and
     the second starts exactly where the first ends; [n + 1] may be the first segment of the next loop. *)
 Theorem C03_abut : forall r F a,
   0 < r -> 0 < F -> F < two32 -> 0 < a ->
   forall vr loopMS, Timeline.wf vr loopMS ->
-  forall fx nr1 nr2 segs n o1 o2,
+  forall nr1 nr2 segs n,
   ref_pre r F a vr segs n -> ref_pre r F a vr segs (n + 1) ->
-  audio_segment fx nr1 (Timeline.S vr n) (Timeline.E vr n) (Timeline.repDuration vr) r F a segs = Ok o1 ->
-  audio_segment fx nr2 (Timeline.S vr (n + 1)) (Timeline.E vr (n + 1)) (Timeline.repDuration vr) r F a segs = Ok o2 ->
+  exists o1 o2,
+  audio_segment nr1 (Timeline.S vr n) (Timeline.E vr n) (Timeline.repDuration vr) r F a segs = Ok o1 /\
+  audio_segment nr2 (Timeline.S vr (n + 1)) (Timeline.E vr (n + 1)) (Timeline.repDuration vr) r F a segs = Ok o2 /\
   o_tfdt o1 = fb r F a (Timeline.S vr n) /\
   lenZ (o_frames o1) = (fb r F a (Timeline.E vr n) - fb r F a (Timeline.S vr n)) / F /\
   (fb r F a (Timeline.E vr n) - fb r F a (Timeline.S vr n)) mod F = 0 /\
@@ -152,17 +120,15 @@ Print Assumptions C03_timeline_recipe.
 (** C03_request. The whole handler path for $Number$ addressing (findRefSegMeta by number =
     findSegMetaFromNr on the reference, recipe, createAudioSeg): the request for number [startNr + n]
     is too early / gone / available exactly like reference segment [n] (C01, C04), and when available
-    the answer is the segment of C03_frames with sequence number [startNr + n]. [fx] is the version of
-    the code (see C03_frames / C03_frames_fixed). *)
+    the answer is the segment of C03_frames with sequence number [startNr + n]. *)
 Theorem C03_request : forall vr loopMS, Timeline.wf vr loopMS ->
   forall c F a, 0 < F -> 0 < a ->
-  forall fx tab n now,
+  forall tab n now,
   0 <= n -> 0 <= Timeline.startNr c -> Timeline.startNr c + n < two32 ->
   ref_pre (Timeline.ts vr) F a vr tab n ->
-  fx = true \/ ref_not_inner (Timeline.ts vr) F a vr tab n ->
   F < two32 -> Timeline.ts vr < two64 -> Timeline.E vr n < two64 -> Timeline.repDuration vr < two64 ->
   Timeline.sdur (Timeline.segAt vr (n mod Timeline.nsegs vr)) < two32 ->
-  AudioRef.audio_request fx vr loopMS c F a tab Timeline.ByNumber (Timeline.startNr c + n) now =
+  AudioRef.audio_request vr loopMS c F a tab Timeline.ByNumber (Timeline.startNr c + n) now =
   Timeline.timed (Timeline.checkTime (Timeline.E vr n + Timeline.startS c * Timeline.ts vr) (Timeline.ts vr) now
                                      (Timeline.tsbdS c) (Timeline.ato c))
         (Timeline.TOk {| o_tfdt := fb (Timeline.ts vr) F a (Timeline.S vr n); o_seq := Timeline.startNr c + n;
@@ -178,13 +144,13 @@ Print Assumptions C03_request.
     number [startNr + n] -- provided the reference segment is at least one audio frame long. *)
 Theorem C03_time_eq_number : forall vr loopMS, Timeline.wf vr loopMS ->
   forall c F a, 0 < F -> 0 < a ->
-  forall fx tab n now,
+  forall tab n now,
   0 <= n -> 0 <= Timeline.startNr c -> Timeline.startNr c + n < two32 ->
   F * Timeline.ts vr <= (Timeline.E vr n - Timeline.S vr n) * a ->
   Timeline.ts vr < two64 -> fb (Timeline.ts vr) F a (Timeline.S vr n) * Timeline.ts vr < two64 ->
   Timeline.E vr n < two63 -> Timeline.repDuration vr < two64 ->
-  AudioRef.audio_request fx vr loopMS c F a tab Timeline.ByTime (fb (Timeline.ts vr) F a (Timeline.S vr n)) now =
-  AudioRef.audio_request fx vr loopMS c F a tab Timeline.ByNumber (Timeline.startNr c + n) now.
+  AudioRef.audio_request vr loopMS c F a tab Timeline.ByTime (fb (Timeline.ts vr) F a (Timeline.S vr n)) now =
+  AudioRef.audio_request vr loopMS c F a tab Timeline.ByNumber (Timeline.startNr c + n) now.
 Proof. exact AudioRefProofs.audio_request_time_eq_number. Qed.
 Print Assumptions C03_time_eq_number.
 
@@ -192,9 +158,9 @@ Print Assumptions C03_time_eq_number.
     ([rp_reach] of [ref_pre] fails) createAudioSeg returns an error or indexes out of range. *)
 Theorem C03_short_audio_refuted :
   awf 1024 w_audio_half /\ awf 1024 w_audio_quarter /\
-  audio_segment false 2 (Timeline.S w_video 2) (Timeline.E w_video 2) (Timeline.repDuration w_video)
+  audio_segment 2 (Timeline.S w_video 2) (Timeline.E w_video 2) (Timeline.repDuration w_video)
                 90000 1024 48000 w_audio_half = Err "audioLeft != audioInEndAfterWrap" /\
-  audio_segment false 3 (Timeline.S w_video 3) (Timeline.E w_video 3) (Timeline.repDuration w_video)
+  audio_segment 3 (Timeline.S w_video 3) (Timeline.E w_video 3) (Timeline.repDuration w_video)
                 90000 1024 48000 w_audio_quarter = Panic "createAudioSeg: index out of range (rep.Segments[startNr])".
 Proof. exact short_audio_refuted_witness. Qed.
 Print Assumptions C03_short_audio_refuted.
@@ -205,9 +171,7 @@ Print Assumptions C03_short_audio_refuted.
 Example C03_example :
   Timeline.wf w_video 8000 /\
   ref_pre 90000 1024 48000 w_video w_audio2short 11 /\
-  ref_not_inner 90000 1024 48000 w_video w_audio2short 11 /\
-  (forall o, audio_segment false 12 (Timeline.S w_video 11) (Timeline.E w_video 11) (Timeline.repDuration w_video)
-                           90000 1024 48000 w_audio2short = Ok o ->
-             o_tfdt o = 1056768 /\ o_seq o = 12 /\
-             o_frames o = rangeZ 282 372 ++ [371; 371; 371]).
+  audio_segment 12 (Timeline.S w_video 11) (Timeline.E w_video 11) (Timeline.repDuration w_video)
+                90000 1024 48000 w_audio2short
+  = Ok {| o_tfdt := 1056768; o_seq := 12; o_frames := rangeZ 282 372 ++ [371; 371; 371] |}.
 Proof. exact (conj w_video_wf frames_example). Qed.
